@@ -12,6 +12,9 @@ import WpModel.Model.RasterEmbed
 import WpModel.Model.SvgViewport
 import WpModel.Model.ImageOrient
 import WpModel.Model.ReplacedPreferred
+import WpModel.Model.SvgCascade
+import WpModel.Model.PngChunks
+import WpModel.Gen.SvgNotInherited
 
 namespace Wp.Drive.Replaced
 open Wp Wp.Replaced
@@ -152,6 +155,17 @@ def cssBox? : Sx → Option CssBox
       ← dim? pl, ← dim? pr, ← bl.rat?, ← br.rat?⟩
   | _ => none
 
+/-- A string travelling as the list of its code points (it may hold blanks); `none` = attribute absent. -/
+def cpString? : Sx → Option String
+  | .list cps => (allSome Sx.nat? cps).map (fun l => String.ofList (l.map Char.ofNat))
+  | _ => none
+
+def optCpString? : Sx → Option (Option String)
+  | .atom "none" => some none
+  | x => (cpString? x).map some
+
+def showCps (s : String) : String := "(" ++ " ".intercalate (s.toList.map (fun c => toString c.toNat)) ++ ")"
+
 /-! ### printing -/
 
 def showPair (p : Rat × Rat) : String := showRat p.1 ++ " " ++ showRat p.2
@@ -199,6 +213,21 @@ def showObj : ImageDedupe.Obj → String
 def showSt (st : ImageDedupe.St) : String :=
   "objs (" ++ " ".intercalate (st.objs.map showObj) ++ ") refs (" ++
     " ".intercalate (st.refs.map (fun p => "(" ++ p.2.1 ++ " " ++ toString p.2.2 ++ ")")) ++ ")"
+
+mutual
+/-- A `Resources` tree as the harness reads it back: XObject entries in dictionary order (an image is its
+name, a group `(xK (XObject…) (Pattern…))`), then Pattern entries `(pK (XObject…) (Pattern…))`. -/
+def showNodes : List ImageDedupe.Node → List String
+  | [] => []
+  | n :: rest => showNode n :: showNodes rest
+def showNode : ImageDedupe.Node → String
+  | .image name => name
+  | .group key xs ps => "(" ++ key ++ " (" ++ " ".intercalate (showNodes xs) ++ ") (" ++ " ".intercalate (showNodes ps) ++ "))"
+  | .pattern key xs ps => "(" ++ key ++ " (" ++ " ".intercalate (showNodes xs) ++ ") (" ++ " ".intercalate (showNodes ps) ++ "))"
+end
+
+def showTree (r : List ImageDedupe.Node × List ImageDedupe.Node) : String :=
+  "(" ++ " ".intercalate (showNodes r.1) ++ ") (" ++ " ".intercalate (showNodes r.2) ++ ")"
 
 /-! ### commands -/
 
@@ -277,8 +306,12 @@ def handle (cmd : String) (args : List Sx) : Option String :=
     let base ← base.nat?
     let draws ← allSome draw? draws
     pure (match ImageDedupe.document draws base with
-      | some st => "ok " ++ showSt st
+      | some st => "ok " ++ showSt st ++ " tree " ++ showTree (ImageDedupe.buildList draws [] [])
       | none => "err:KeyError")
+  | "restree", [.list draws] => do
+    -- the `Resources` dictionaries of the page(s), groups and patterns after the drawing (names only)
+    let draws ← allSome draw? draws
+    pure ("ok " ++ showTree (ImageDedupe.buildList draws [] []))
   | "imgname", [.atom id, interp] => do
     pure (ImageDedupe.imageName id (← interp.bool?))
   | "rdraw", [.atom id, pw, ph, dpi, cw, ch, c00, c11, auto] => do
@@ -318,9 +351,9 @@ def handle (cmd : String) (args : List Sx) : Option String :=
     let s : RasterEmbed.Src := ⟨RasterEmbed.PMode.ofPillow mode, ← transp.bool?, RasterEmbed.Fmt.ofPillow fmt,
       ← app14.bool?, ← rotated.bool?, ← hasData.bool?⟩
     let o : RasterEmbed.Opts := ⟨← optimize.bool?, ← quality.bool?⟩
-    pure (match RasterEmbed.embed s o with
-      | .error e => e.render
-      | .ok (r, x) => "ok " ++ " ".intercalate [r.mode.pillow, toString r.jpeg, toString r.reencoded,
+    pure (match RasterEmbed.loadEmbed s o with
+      | none => "not-loaded"
+      | some (r, x) => "ok " ++ " ".intercalate [r.mode.pillow, toString r.jpeg, toString r.reencoded,
           toString r.invert, x.colorSpace, x.filter, toString x.colors3, toString x.smask,
           toString x.decodeInverted, if RasterEmbed.faithful r then "pixels-same" else "pixels-unchecked"])
   | "svgratio", [vb, root, iw, ih, .list parWords, marker, w, h] => do
@@ -336,6 +369,31 @@ def handle (cmd : String) (args : List Sx) : Option String :=
     pure (match r with
       | .ok r => "ok " ++ " ".intercalate [showRat r.sx, showRat r.sy, showRat r.tx, showRat r.ty]
       | .error e => e.render)
+  | "pngdata", [.list bytes] => do
+    -- `RasterImage._get_png_data` on the bytes of the file
+    let bytes ← allSome Sx.nat? bytes
+    pure (match PngChunks.getPngData bytes with
+      | .ok data => "ok (" ++ " ".intercalate (data.map toString) ++ ")"
+      | .error e => e.render)
+  | "svgattr", [key, .list chain] => do
+    -- the attribute `key` on the last element of a chain of nested elements, after `Node.cascade`
+    let key ← cpString? key
+    let chain ← allSome optCpString? chain
+    pure (match SvgViewport.chainAttr Gen.svgNotInherited key chain with
+      | none => "ok none"
+      | some v => "ok " ++ showCps v)
+  | "svgratioc", [vb, .list chain, marker, w, h] => do
+    -- `preserve_ratio` on a nested element: `preserveAspectRatio` as written on root … element
+    let chain ← allSome optCpString? chain
+    let par := SvgViewport.effectivePar Gen.svgNotInherited chain
+    let marker ← match marker with
+      | .atom "none" => some none
+      | .list [a, b] => do pure (some ((← a.rat?), (← b.rat?)))
+      | _ => none
+    let r := SvgViewport.preserveRatio (← rats? vb) false (none, none) par marker (← w.rat?) (← h.rat?)
+    pure (match r with
+      | .ok r => "ok " ++ " ".intercalate [showRat r.sx, showRat r.sy, showRat r.tx, showRat r.ty]
+      | .error e => e.render)
   | "svgroot", [vb, iw, ih, .list parWords, w, h] => do
     let cps ← allSome Sx.nat? parWords
     let r := SvgViewport.rootTransform (← rats? vb) ((← optRat? iw), (← optRat? ih))
@@ -346,6 +404,13 @@ def handle (cmd : String) (args : List Sx) : Option String :=
   | "svgimage", [w, h, iw, ih, ir] => do
     pure (match SvgViewport.imageBox (← w.rat?) (← h.rat?) (← optRat? iw) (← optRat? ih) (← optRat? ir) with
       | .ok (a, b, c, d) => "ok " ++ " ".intercalate [showRat a, showRat b, showRat c, showRat d]
+      | .error e => e.render)
+  | "svgimagee", [href, loaded, w, h, iw, ih, ir] => do
+    pure (match SvgViewport.imageElement (← href.bool?) (← loaded.bool?) (← w.rat?) (← h.rat?) (← optRat? iw)
+        (← optRat? ih) (← optRat? ir) with
+      | .ok (asked, none) => "ok " ++ toString asked ++ " none"
+      | .ok (asked, some (a, b, c, d)) => "ok " ++ toString asked ++ " " ++
+          " ".intercalate [showRat a, showRat b, showRat c, showRat d]
       | .error e => e.render)
   | "orientangle", [q] => do
     pure (toString (ImageOrient.computedAngle (← q.rat?)))
